@@ -247,9 +247,19 @@ def check(case, ctx):
         ch.randomize(*args)
         raw = np.array(ch._big_H_no_pathloss, copy=True)
     big = raw
-    if case["pl"] is not None:
-        prs = np.random.RandomState(int(case["pl"]))
+    ae = int(case.get("abs_exp", 0))
+    if ae:
+        # link budgets in Watt: every path loss and the noise carry one
+        # common factor (the SINRs do not depend on it)
+        ctx.label("absolute_scale_1e%d" % ae)
+        if noise is not None:
+            noise = noise * 10.0 ** ae
+    if case["pl"] is not None or ae:
+        prs = np.random.RandomState(int(case["pl"] or 0))
         PL = 10.0 ** prs.uniform(-3.0, 1.0, size=(K, K + E))
+        if case["pl"] is None:
+            PL = np.ones((K, K + E))
+        PL = PL * 10.0 ** ae
         if ext:
             ch.set_pathloss(PL[:, :K].copy(), PL[:, K:].copy())
         else:
@@ -260,6 +270,8 @@ def check(case, ctx):
         # the noise variance as the caller's number type (a Python float, an
         # int such as ``noise_var = 1``, or a numpy scalar)
         ntype = case.get("noise_type", "float")
+        if ae and ntype in ("int", "np.int64"):
+            ntype = "float"
         if ntype == "int":
             noise = float(max(1, int(round(noise))) if noise else 0)
             ch.noise_var = int(noise)
@@ -301,7 +313,8 @@ def check(case, ctx):
         f = _randc(frs, sum(Nt), Ns[k])
         Fjp.append(f / np.linalg.norm(f) * math.sqrt(pw[k]))
         u = _randc(urs, Nr[k], Ns[k])
-        U.append(u * 10.0 ** urs.uniform(-1.0, 1.0, size=(1, Ns[k])))
+        U.append(u * 10.0 ** urs.uniform(-1.0, 1.0, size=(1, Ns[k])) *
+                 10.0 ** int(case.get("u_exp", 0)))
     # non-zero complex rescaling of every receive vector
     U2 = [u * (10.0 ** urs.uniform(-2.0, 2.0, size=(1, u.shape[1])) *
                np.exp(2j * np.pi * urs.uniform(size=(1, u.shape[1]))))
@@ -363,8 +376,56 @@ def check(case, ctx):
                      _oracle_Q(model, k, empty, noise, pe, False), tags,
                      "calc_cov_matrix_extint_plus_noise[%d]" % k)
 
+    # ---- 3. (defined here, run last) the channel object changes AFTER
+    # everything above was asked once: the answers follow the new channel
+    def requery(sol=None):
+        if not case.get("requery"):
+            return
+        ctx.label("requery_after_set_pathloss")
+        prs2 = np.random.RandomState(int(case["chan_seed"]) + 4242)
+        PL2 = 10.0 ** prs2.uniform(-3.0, 1.0, size=(K, K + E)) * 10.0 ** ae
+        if ext:
+            ch.set_pathloss(PL2[:, :K].copy(), PL2[:, K:].copy())
+        else:
+            ch.set_pathloss(PL2.copy())
+        big2 = raw * np.sqrt(np.repeat(np.repeat(PL2, Nr, axis=0),
+                                       list(Nt) + NtE, axis=1))
+        model2 = Model(Nr, Nt, NtE, big2)
+        t3 = dict(tags, jp=False, step="requery_after_set_pathloss")
+        got = ch.calc_SINR(_obj(F), _obj(U), *pe_args())
+        _cmp_sinr(ctx, "sinr_channel_vs_oracle", got,
+                  _oracle_sinr(model2, F, U, noise, pe, False), t3,
+                  "calc_SINR after set_pathloss")
+        for k in range(K):
+            _check_Q(ctx, "Q", ch.calc_Q(k, _obj(F), *pe_args()),
+                     _oracle_Q(model2, k, F, noise, pe, False), t3,
+                     "calc_Q(%d) after set_pathloss" % k)
+        if ext:
+            R2 = ch.calc_cov_matrix_extint_plus_noise(*(
+                [] if pe_arg is None else [float(pe_arg)]))
+            empty2 = [np.zeros((Nt[j], 0)) for j in range(K)]
+            for k in range(K):
+                _check_Q(ctx, "Rext", R2[k],
+                         _oracle_Q(model2, k, empty2, noise, pe, False), t3,
+                         "calc_cov_matrix_extint_plus_noise[%d] after "
+                         "set_pathloss" % k)
+        if sol is not None:
+            # the solver reads the channel object it was given: what it
+            # reports for its current filters is about the current channel
+            fFs = [np.array(x) for x in sol.full_F]
+            fWs = [np.array(x) for x in sol.full_W]
+            _cmp_sinr(ctx, "sinr_solver_vs_oracle", sol.calc_SINR(),
+                      _oracle_sinr(model2, fFs, fWs, noise, 0.0, False), t3,
+                      "solver.calc_SINR after the channel's set_pathloss")
+            for k in range(K):
+                _check_Q(ctx, "Q", sol.calc_Q(k),
+                         _oracle_Q(model2, k, fFs, noise,
+                                   1.0 if ext else 0.0, False), t3,
+                         "solver.calc_Q(%d) after set_pathloss" % k)
+
     # ---- 2. IA solver vs channel object vs first principles --------------
     if overloaded:
+        requery()
         return
     ctx.label("solver_checked", "load=" + case["load"])
     sol = _Solver(ch)
@@ -447,6 +508,7 @@ def check(case, ctx):
     _cmp_sinr(ctx, "sinr_solver_vs_oracle", sol.calc_SINR(), ref2, t2,
               "solver.calc_SINR after the power array was scaled in place "
               "and assigned again")
+    requery(sol)
 
 
 # ----------------------------------------------------------------------------
@@ -481,6 +543,9 @@ def _strategy(tier):
                                      loguniform(-4, 1), loguniform(-4, 1))),
             reused_object=draw(st.sampled_from([False, False, True])),
             second_object=draw(st.sampled_from([False, False, True])),
+            abs_exp=draw(st.sampled_from([0, 0, 0, -14, -10, -6])),
+            u_exp=draw(st.sampled_from([0, 0, 0, -5, -8])),
+            requery=draw(st.booleans()),
             noise_type=draw(st.sampled_from(["float", "float", "float", "int",
                                              "np.int64", "np.float32",
                                              "np.float64"])),
